@@ -496,6 +496,11 @@ func solve(o *Obligation, timeout time.Duration, portfolio []string) {
 }
 
 func solveAt(o *Obligation, timeout time.Duration, portfolio []string) {
+	if o.ExpectSat && timeout > 4*time.Second {
+		// covers are satisfiability queries over nonlinear facts: an answer that does not come quickly is
+		// treated as inconclusive (never as a failure), so do not wait for it
+		timeout = 4 * time.Second
+	}
 	q := o.Query(false)
 	file := obFile(o, "")
 	os.WriteFile(file, []byte(q), 0o644)
